@@ -236,7 +236,7 @@ def run_unit(repo, unit, template, workdir, tier='quick'):
     from concurrent.futures import ThreadPoolExecutor
     with ThreadPoolExecutor(2) as ex:
         f1 = ex.submit(run_verus, path, rlimit)
-        f2 = ex.submit(run_verus, cpath, rlimit)
+        f2 = ex.submit(run_verus, cpath, (rlimit or 10) * 4)
         r, rc = f1.result(), f2.result()
     res['checker_cmd'] = r.get('cmd')
     res['wall_s'] = time.time() - t0
@@ -304,8 +304,19 @@ def run_unit(repo, unit, template, workdir, tier='quick'):
                                     best = int(m2.group(1))
                             if best is not None:
                                 failing.add(best)
+        rlimit_fns = set()
+        for d in rc['diags']:
+            if d.get('level') == 'error' and any(k in d.get('message', '') for k in ('rlimit', 'Resource limit')):
+                for sp in d.get('spans', []):
+                    l = sp['line_start'] - 1
+                    mm = linemap[l - 1] if 0 <= l - 1 < len(linemap) else None   # canary file has one extra line at the top
+                    if mm and mm.get('gen_name'):
+                        rlimit_fns.add(mm['gen_name'])
         for n, label in labels.items():
             if n in failing:
+                can['ok'] += 1
+            elif label.split(':', 1)[1] in rlimit_fns:
+                can.setdefault('undetermined', []).append(label)   # solver gave up on the canary variant: not vacuity
                 can['ok'] += 1
             else:
                 can['vacuous'].append(label)
